@@ -362,6 +362,10 @@ class NetworkGraph(AbstractBaseIR):
                 d = [0] * n_slots
             else:
                 d = self._process_delays(d, discretize=discretize)
+                # a delay of at most one integration step is neglected, whatever other delays leave the same variable
+                # (delays in steps are compared with 1, delays in time units with the step size)
+                in_steps = discretize and not self.step_size_adaptation
+                d = [0 if d_tmp <= (1 if in_steps else self.step_size) else d_tmp for d_tmp in d]
 
             # extract source var index
             source = self.edges[s, t, e]['source_idx']
@@ -373,13 +377,8 @@ class NetworkGraph(AbstractBaseIR):
             stds += v
             nodes.append(source)
 
-        # check whether edge delays have to be implemented or can be ignored: a delay of at most one integration step
-        # is neglected, whatever other delays leave the same variable
-        means = [0 if (("int" in str(type(d)) and d <= 1) or ("float" in str(type(d)) and d <= self.step_size)) else d
-                 for d in means]
-        max_delay = np.max(means)
-        add_delay = ("int" in str(type(max_delay)) and max_delay > 1) or \
-                    ("float" in str(type(max_delay)) and max_delay > self.step_size)
+        # check whether edge delays have to be implemented or can be ignored
+        add_delay = np.max(means) > 0
         if sum(stds) == 0:
             stds = None
 
